@@ -25,7 +25,7 @@
 From TxV Require Import Core.Base Model.PegSyntax Model.Peg Proofs.PegProofs Proofs.PegMemo Proofs.PegFuel.
 From TxV Require Import Model.PegWsDefs
      Proofs.PegWs Proofs.PegWsSim Proofs.PegCmtSim Proofs.PegWsMemo Proofs.PegGap Proofs.PegWsWit.
-From TxV Require Import Model.Build Model.BuildShiftDefs Proofs.BuildShift Proofs.BuildShiftWit.
+From TxV Require Import Model.Build Model.BuildShiftDefs Proofs.BuildShift Proofs.BuildFits Proofs.BuildShiftWit.
 
 (* skip absorption: from related positions (equal left of the insertion point, anywhere inside the
    inserted text at it, shifted right of it) skipping ends at corresponding positions *)
@@ -196,8 +196,9 @@ Print Assumptions C22_any_fuel_nonvacuous.
 
 (* ---------------------------------------------------------------- the MODEL (object graph)
    Model/Build.v (C01/C06: parse tree -> object graph over the dumped metamodel table) commutes with the
-   position shift: on a tree in which no terminal is empty or lies across the insertion point and no
-   NonTerminal is empty ([fits], decidable, evaluated per case), building the shifted tree on the mutated
+   position shift: on a tree in which no terminal lies across the insertion point, no zero-length terminal
+   sits exactly at it and (for an insertion at position 0) no NonTerminal is empty ([fits], decidable,
+   evaluated per case; derived from grammar + oracle for interior insertions, C22_fits_of_run below), building the shifted tree on the mutated
    input gives the same outcome (same error, or the same object graph) with _tx_position moved by phi,
    _tx_position_end by phie, and classes, attribute names, values (incl. the text every base-type
    conversion is applied to), defaults and containment unchanged.  use_regexp_group = False. *)
@@ -247,3 +248,46 @@ Example C22_model_unchanged_nonvacuous :
             is_obj (build g_obj mm_obj ([109;32;97;32;49;32] ++ [98;32;50])%N no_grp true false r) = true.
 Proof. exact obj_nonvacuous. Qed.
 Print Assumptions C22_model_unchanged_nonvacuous.
+
+(* ---------------------------------------------------------------- the tree condition from grammar + oracle
+   With the terminal invariant of the whole interpreter (Proofs/PegInv.v, C20/C21): under shift_okb no
+   terminal of an accepted parse lies across the insertion point; with no StrMatch '' in the table the only
+   zero-length terminals are EOF terminals (at the end of the input); so for an insertion strictly inside the
+   input (a, b non-empty) every accepted parse satisfies [fits_res], with or without memoization. *)
+Theorem C22_fits_of_run : forall g a ins b orc orc',
+  shift_okb g (a ++ b) orc (a ++ ins ++ b) orc' (length a) (length ins) = true ->
+  no_empty_lit g = true -> b <> [] ->
+  forall cfg memo fuel r, a <> [] -> run g cfg orc memo fuel (a ++ b) = Parsed r -> fits_res (length a) r = true.
+Proof. exact fits_of_run. Qed.
+Print Assumptions C22_fits_of_run.
+
+(* the model is unchanged: hypotheses on the grammar table, the configuration and the oracle only *)
+Theorem C22_model_unchanged : forall g mm cfg orc orc' grp grp' auto fuel a ins b r,
+  ins_wf g cfg ins = true ->
+  shift_okb g (a ++ b) orc (a ++ ins ++ b) orc' (length a) (length ins) = true ->
+  no_empty_lit g = true -> a <> [] -> b <> [] ->
+  run g cfg orc false fuel (a ++ b) = Parsed r ->
+  exists r', run g cfg orc' false fuel (a ++ ins ++ b) = Parsed r' /\
+             models_shifted (length a) (length ins)
+               (build g mm (a ++ b) grp auto false r) (build g mm (a ++ ins ++ b) grp' auto false r').
+Proof. exact ws_model_unchanged_table. Qed.
+Print Assumptions C22_model_unchanged.
+
+Theorem C22_comment_model_unchanged : forall g mm cfg orc orc' grp grp' auto fuel a w1 c w2 b r,
+  cmt_wf g cfg = true ->
+  cmt_ins_okb g cfg orc' a w1 c w2 = true ->
+  shift_okb g (a ++ b) orc (a ++ (w1 ++ c ++ w2) ++ b) orc' (length a) (length (w1 ++ c ++ w2)) = true ->
+  no_empty_lit g = true -> a <> [] -> b <> [] ->
+  run g cfg orc false fuel (a ++ b) = Parsed r ->
+  PegWsDefs.not_aborted (run g cfg orc' false fuel (a ++ (w1 ++ c ++ w2) ++ b)) ->
+  exists r', run g cfg orc' false fuel (a ++ (w1 ++ c ++ w2) ++ b) = Parsed r' /\
+             models_shifted (length a) (length (w1 ++ c ++ w2))
+               (build g mm (a ++ b) grp auto false r) (build g mm (a ++ (w1 ++ c ++ w2) ++ b) grp' auto false r').
+Proof. exact comment_model_unchanged_table. Qed.
+Print Assumptions C22_comment_model_unchanged.
+
+Example C22_model_unchanged_table_nonvacuous :
+  no_empty_lit g_obj = true /\ ([109;32;97;32;49;32]%N <> []) /\ ([98;32;50]%N <> []) /\
+  PegWsDefs.accepts (run g_obj c_obj (orc_of tbl_obj) false 60 ([109;32;97;32;49;32] ++ [98;32;50])%N) = true.
+Proof. exact obj_table_nonvacuous. Qed.
+Print Assumptions C22_model_unchanged_table_nonvacuous.
